@@ -20,14 +20,24 @@ fn bpsv(tag: u32) -> Vec<u8> {
 }
 
 fn v1_mime(tag: u32, good_checksum: bool) -> Vec<u8> {
+    v1_mime_nl(tag, good_checksum, "\r\n")
+}
+
+/// The same response with bare-LF line ends: MIME headers then end in "\n\n", the very byte
+/// sequence the client's read loop uses as its stop rule for V2 responses.
+fn v1_mime_lf(tag: u32) -> Vec<u8> {
+    v1_mime_nl(tag, true, "\n")
+}
+
+fn v1_mime_nl(tag: u32, good_checksum: bool, nl: &str) -> Vec<u8> {
     let body = String::from_utf8(bpsv(tag)).unwrap();
-    let msg = format!("MIME-Version: 1.0\r\nContent-Type: multipart/alternative; boundary=\"b1\"\r\n\r\n--b1\r\nContent-Type: text/plain\r\nContent-Disposition: version\r\n\r\n{body}\r\n--b1--\r\n");
+    let msg = format!("MIME-Version: 1.0{nl}Content-Type: multipart/alternative; boundary=\"b1\"{nl}{nl}--b1{nl}Content-Type: text/plain{nl}Content-Disposition: version{nl}{nl}{body}{nl}--b1--{nl}");
     let mut sum = crate::sha256_hex(msg.as_bytes());
     if !good_checksum {
         let c = if sum.starts_with('0') { '1' } else { '0' };
         sum.replace_range(0..1, &c.to_string());
     }
-    format!("{msg}Checksum: {sum}\r\n").into_bytes()
+    format!("{msg}Checksum: {sum}{nl}").into_bytes()
 }
 
 #[derive(Clone, Copy, Debug, PartialEq, Eq, Hash)]
@@ -50,6 +60,8 @@ pub enum HB {
 #[derive(Clone, Copy, Debug, PartialEq, Eq, Hash)]
 pub enum TB {
     ValidV1,
+    /// V1 MIME with bare-LF line ends (segmentation scenarios only)
+    ValidV1Lf,
     ValidV2,
     Malformed,
     WrongChecksum,
@@ -79,7 +91,7 @@ fn hclass(b: HB) -> Class {
 
 fn tclass(b: TB) -> Class {
     match b {
-        TB::ValidV1 | TB::ValidV2 => Class::Good,
+        TB::ValidV1 | TB::ValidV1Lf | TB::ValidV2 => Class::Good,
         _ => Class::Unclassified, // last endpoint: any failure ends the query with an error
     }
 }
@@ -104,12 +116,13 @@ fn http_behaviour(b: HB, tag: u32) -> HttpBehaviour {
     }
 }
 
-fn tcp_behaviour(b: TB, tag: u32, cut: Option<usize>) -> TcpBehaviour {
+fn tcp_behaviour(b: TB, tag: u32, cut: Option<usize>, cut2: Option<usize>) -> TcpBehaviour {
     match b {
-        TB::ValidV1 => TcpBehaviour::Send { data: v1_mime(tag, true), cut },
-        TB::ValidV2 => TcpBehaviour::Send { data: bpsv(tag), cut },
-        TB::Malformed => TcpBehaviour::Send { data: MALFORMED.to_vec(), cut: None },
-        TB::WrongChecksum => TcpBehaviour::Send { data: v1_mime(tag, false), cut: None },
+        TB::ValidV1 => TcpBehaviour::Send { data: v1_mime(tag, true), cut, cut2 },
+        TB::ValidV1Lf => TcpBehaviour::Send { data: v1_mime_lf(tag), cut, cut2 },
+        TB::ValidV2 => TcpBehaviour::Send { data: bpsv(tag), cut, cut2 },
+        TB::Malformed => TcpBehaviour::Send { data: MALFORMED.to_vec(), cut: None, cut2: None },
+        TB::WrongChecksum => TcpBehaviour::Send { data: v1_mime(tag, false), cut: None, cut2: None },
         TB::Refuse => TcpBehaviour::Refuse,
         TB::AcceptClose => TcpBehaviour::AcceptClose,
         TB::CloseMid => TcpBehaviour::CloseMid(v1_mime(tag, true)),
@@ -123,6 +136,10 @@ pub struct Scenario {
     pub http: Option<HB>,
     pub tcp: TB,
     pub cut: Option<usize>,
+    pub cut2: Option<usize>,
+    /// 0 = every TTL class as `ttl_zero` says; 1 = only this endpoint's own class as `ttl_zero`
+    /// says, the other two classes the opposite (a value cached under the wrong class shows)
+    pub ttl_split: bool,
     pub endpoint: &'static str,
     /// "qq" = query twice; "qnq" = query, new client on the same cache dir, query
     pub script: &'static str,
@@ -137,10 +154,10 @@ impl Scenario {
             self.https,
             self.http,
             self.tcp,
-            self.cut.map(|c| format!(" cut@{c}")).unwrap_or_default(),
+            format!("{}{}", self.cut.map(|c| format!(" cut@{c}")).unwrap_or_default(), self.cut2.map(|c| format!("+{c}")).unwrap_or_default()),
             self.endpoint,
             self.script,
-            if self.ttl_zero { "0" } else { "1h" },
+            format!("{}{}", if self.ttl_zero { "0" } else { "1h" }, if self.ttl_split { "(own class only, others opposite)" } else { "" }),
             if self.disk_cache { "disk" } else { "memory" }
         )
     }
@@ -165,11 +182,15 @@ struct Observed {
 
 fn make_client(sc: &Scenario, ports: [u16; 3], cache_dir: Option<&std::path::Path>) -> Result<RibbitTactClient, String> {
     let ttl = if sc.ttl_zero { Duration::ZERO } else { Duration::from_secs(3600) };
+    let other = if !sc.ttl_split { ttl } else if sc.ttl_zero { Duration::from_secs(3600) } else { Duration::ZERO };
+    // the documented TTL classes: versions/bgdl → ribbit_ttl, cdns → cdn_ttl, everything else → config_ttl
+    let own = if sc.endpoint.contains("versions") || sc.endpoint.contains("bgdl") { 0 } else if sc.endpoint.contains("cdns") { 1 } else { 2 };
+    let pick = |i: usize| if i == own { ttl } else { other };
     let cache_config = CacheConfig {
         cache_dir: cache_dir.map(std::path::Path::to_path_buf),
-        ribbit_ttl: ttl,
-        cdn_ttl: ttl,
-        config_ttl: ttl,
+        ribbit_ttl: pick(0),
+        cdn_ttl: pick(1),
+        config_ttl: pick(2),
         ..CacheConfig::default()
     };
     let cfg = ClientConfig {
@@ -241,7 +262,7 @@ async fn run_scenario(sc: Scenario) -> (Scenario, Result<String, (String, String
     let name = sc.name();
     let m0 = http_mock(http_behaviour(sc.https.unwrap_or(HB::Refuse), 100)).await;
     let m1 = http_mock(http_behaviour(sc.http.unwrap_or(HB::Refuse), 200)).await;
-    let m2 = tcp_mock(tcp_behaviour(sc.tcp, 300, sc.cut)).await;
+    let m2 = tcp_mock(tcp_behaviour(sc.tcp, 300, sc.cut, sc.cut2)).await;
     let ports = [m0.port, m1.port, m2.port];
     let mocks = [&m0, &m1, &m2];
     let scratch = if sc.disk_cache { Some(Scratch::new("c13")) } else { None };
@@ -275,6 +296,9 @@ async fn run_scenario(sc: Scenario) -> (Scenario, Result<String, (String, String
         let kind = if !contacted_ok { "fail-over-order" } else { "wrong-result" };
         let cls = format!("{:?}/{:?}/{:?}", sc.https.map(hclass), sc.http.map(hclass), tclass(sc.tcp));
         return fail(kind, &cls, format!("{name}: first query contacted [https,http,tcp] = {:?} and returned {:?}; the reference allows {:?}", first.contacts, first.result, allow));
+    }
+    if sc.script == "q" {
+        return (sc, Ok(out_summary));
     }
     // second query
     let second = match sc.script {
@@ -345,7 +369,7 @@ fn scenarios(tier: Tier) -> Vec<Scenario> {
                 if tier == Tier::Thorough && [*a == HB::Stall, *b == HB::Stall, *t == TB::Stall].iter().filter(|x| **x).count() > 1 {
                     continue; // at most one 30 s stall per scenario
                 }
-                out.push(Scenario { https: Some(*a), http: Some(*b), tcp: *t, cut: None, endpoint: "v1/products/wow/versions", script: "qq", ttl_zero: false, disk_cache: true });
+                out.push(Scenario { https: Some(*a), http: Some(*b), tcp: *t, cut: None, cut2: None, ttl_split: false, endpoint: "v1/products/wow/versions", script: "qq", ttl_zero: false, disk_cache: true });
             }
         }
     }
@@ -367,7 +391,11 @@ fn scenarios(tier: Tier) -> Vec<Scenario> {
                                 if tier == Tier::Quick && !tcp_only && *ep != "v1/products/wow/versions" && !(a == HB::Valid || a == HB::S503) {
                                     continue;
                                 }
-                                out.push(Scenario { https: Some(a), http: Some(b), tcp: t, cut: None, endpoint: ep, script, ttl_zero, disk_cache: disk });
+                                out.push(Scenario { https: Some(a), http: Some(b), tcp: t, cut: None, cut2: None, ttl_split: false, endpoint: ep, script, ttl_zero, disk_cache: disk });
+                                // own TTL class vs the other two: only where the first query can succeed
+                                if a == HB::Valid || (a == HB::S503 && b == HB::Valid) || tcp_only {
+                                    out.push(Scenario { https: Some(a), http: Some(b), tcp: t, cut: None, cut2: None, ttl_split: true, endpoint: ep, script, ttl_zero, disk_cache: disk });
+                                }
                             }
                         }
                     }
@@ -378,13 +406,30 @@ fn scenarios(tier: Tier) -> Vec<Scenario> {
     // (3) endpoint configuration: each TACT URL present or empty
     for (h1, h2) in [(None, Some(HB::Valid)), (Some(HB::S503), None), (None, None), (None, Some(HB::S404))] {
         for t in tb_small {
-            out.push(Scenario { https: h1, http: h2, tcp: t, cut: None, endpoint: "v1/products/wow/versions", script: "qq", ttl_zero: false, disk_cache: false });
+            out.push(Scenario { https: h1, http: h2, tcp: t, cut: None, cut2: None, ttl_split: false, endpoint: "v1/products/wow/versions", script: "qq", ttl_zero: false, disk_cache: false });
         }
     }
     // (4) segmentation: every single cut position of every valid TCP response (TCP reached directly)
-    for (t, len) in [(TB::ValidV1, v1_mime(300, true).len()), (TB::ValidV2, bpsv(300).len())] {
+    let mut seg: Vec<(TB, Vec<u8>)> = vec![(TB::ValidV1, v1_mime(300, true)), (TB::ValidV2, bpsv(300))];
+    // the LF variant only if the repository's own MIME parser reads it on the unchanged path
+    if cascette_protocol::mime_parser::parse_v1_mime_to_bpsv(&v1_mime_lf(300)).is_ok() && cascette_protocol::mime_parser::is_v1_mime_response(&v1_mime_lf(300)) {
+        seg.push((TB::ValidV1Lf, v1_mime_lf(300)));
+    }
+    for (t, data) in seg {
+        let len = data.len();
         for cut in 1..len {
-            out.push(Scenario { https: None, http: None, tcp: t, cut: Some(cut), endpoint: "v1/summary", script: "qq", ttl_zero: false, disk_cache: false });
+            out.push(Scenario { https: None, http: None, tcp: t, cut: Some(cut), cut2: None, ttl_split: false, endpoint: "v1/summary", script: "qq", ttl_zero: false, disk_cache: false });
+        }
+        // (5) two cuts: the read loop's stop rule looks at how a segment *ends* (a blank line) and at
+        // what has been *recognised* so far (the MIME prefix). First cut: every position (how much of
+        // the prefix the first segment carries); second cut: every later line end (where a segment can
+        // end in a blank line) — thorough: every later position on a grid of 3.
+        let line_ends: Vec<usize> = data.iter().enumerate().filter(|(_, b)| **b == b'\n').map(|(i, _)| i + 1).filter(|p| *p < len).collect();
+        for c1 in 1..len {
+            let seconds: Vec<usize> = if tier == Tier::Thorough { (c1 + 1..len).filter(|p| line_ends.contains(p) || p % 3 == 0).collect() } else { line_ends.iter().copied().filter(|p| *p > c1).collect() };
+            for c2 in seconds {
+                out.push(Scenario { https: None, http: None, tcp: t, cut: Some(c1), cut2: Some(c2), ttl_split: false, endpoint: "v1/summary", script: "q", ttl_zero: false, disk_cache: false });
+            }
         }
     }
     out
@@ -392,7 +437,7 @@ fn scenarios(tier: Tier) -> Vec<Scenario> {
 
 pub fn run(tier: Tier, seed: u64) -> i32 {
     let rep = Report::new("C13", tier, seed, Level::ModelChecking);
-    rep.set_rule("scenario = assignment of a behaviour to each of the three loopback endpoints × endpoint class × query script × TTL class × cache kind; (1) the full product of behaviours for versions/qq/1h/disk, (2) a reduced behaviour set across all other dimensions, (3) endpoint URLs present/empty, (4) every single cut position of every valid TCP response; states = scenarios, transitions = queries issued, traces = scenarios executed on the real RibbitTactClient");
+    rep.set_rule("scenario = assignment of a behaviour to each of the three loopback endpoints × endpoint class × query script × TTL class × cache kind; (1) the full product of behaviours for versions/qq/1h/disk, (2) a reduced behaviour set across all other dimensions, (3) endpoint URLs present/empty, (4) every single cut position of every valid TCP response, (5) every pair (first cut anywhere, second cut at every later line end; thorough: later positions on a grid of 3); states = scenarios, transitions = queries issued, traces = scenarios executed on the real RibbitTactClient");
     rep.assume("loopback TCP, plain HTTP for the 'HTTPS' endpoint (as the repository's own tests do); real time; a refused connection is produced by a bound, non-listening socket");
     rep.assume("classification: 5xx/429/refused/stall = transient, 4xx other than 429 = definitive; 200+malformed body, accept-and-close, close-mid-body are 'failed' but not judged on stop-vs-continue (DESIGN §6)");
     rep.assume("a single cut is exhaustive for segmentation: the client's read loop state is the received prefix and its stop rule is evaluated at segment ends only");
@@ -437,7 +482,7 @@ pub fn run(tier: Tier, seed: u64) -> i32 {
             Err((kind, cls, detail)) => {
                 rep.add_outcome(crate::util::fnv64_str(kind));
                 let sig = if sc.cut.is_some() { format!("{kind}|segmentation|{:?}", sc.tcp) } else { format!("{kind}|{cls}") };
-                rep.violation(kind, &sig, json!({"scenario": sc.name(), "https": format!("{:?}", sc.https), "http": format!("{:?}", sc.http), "tcp": format!("{:?}", sc.tcp), "cut": sc.cut,
+                rep.violation(kind, &sig, json!({"scenario": sc.name(), "https": format!("{:?}", sc.https), "http": format!("{:?}", sc.http), "tcp": format!("{:?}", sc.tcp), "cut": sc.cut, "cut2": sc.cut2, "ttl_split": sc.ttl_split,
                     "endpoint": sc.endpoint, "script": sc.script, "ttl_zero": sc.ttl_zero, "disk_cache": sc.disk_cache}), detail);
             }
         }
@@ -459,7 +504,7 @@ pub fn replay(w: &serde_json::Value) -> i32 {
     let parse_hb = |s: &str| -> Option<HB> {
         [HB::Valid, HB::S500, HB::S502, HB::S503, HB::S429, HB::S429RetryAfter, HB::S404, HB::S403, HB::Malformed, HB::Refuse, HB::AcceptClose, HB::CloseMid, HB::Stall].into_iter().find(|b| format!("Some({b:?})") == s)
     };
-    let parse_tb = |s: &str| -> TB { [TB::ValidV1, TB::ValidV2, TB::Malformed, TB::WrongChecksum, TB::Refuse, TB::AcceptClose, TB::CloseMid, TB::Stall].into_iter().find(|b| format!("{b:?}") == s).unwrap_or(TB::Refuse) };
+    let parse_tb = |s: &str| -> TB { [TB::ValidV1, TB::ValidV1Lf, TB::ValidV2, TB::Malformed, TB::WrongChecksum, TB::Refuse, TB::AcceptClose, TB::CloseMid, TB::Stall].into_iter().find(|b| format!("{b:?}") == s).unwrap_or(TB::Refuse) };
     let endpoint: &'static str = ["v1/products/wow/versions", "v1/products/wow/cdns", "v1/products/wow/bgdl", "v1/summary", "v1/certs/abc"].into_iter().find(|e| Some(*e) == wit["endpoint"].as_str()).unwrap_or("v1/products/wow/versions");
     let sc = Scenario {
         https: parse_hb(wit["https"].as_str().unwrap_or("")),
@@ -467,7 +512,9 @@ pub fn replay(w: &serde_json::Value) -> i32 {
         tcp: parse_tb(wit["tcp"].as_str().unwrap_or("")),
         cut: wit["cut"].as_u64().map(|c| c as usize),
         endpoint,
-        script: if wit["script"].as_str() == Some("qnq") { "qnq" } else { "qq" },
+        script: match wit["script"].as_str() { Some("qnq") => "qnq", Some("q") => "q", _ => "qq" },
+        cut2: wit["cut2"].as_u64().map(|c| c as usize),
+        ttl_split: wit["ttl_split"].as_bool().unwrap_or(false),
         ttl_zero: wit["ttl_zero"].as_bool().unwrap_or(false),
         disk_cache: wit["disk_cache"].as_bool().unwrap_or(false),
     };
